@@ -109,10 +109,11 @@ pub fn mutator_ref(mid: usize) -> &'static mut Mutator<SimVM> {
 
 /// A mutator safepoint: park while a stop is requested.
 pub fn safepoint(mid: usize) {
-    if STOP_REQUESTED.load(Ordering::SeqCst) {
+    use crate::ops2::FORK_HOLD;
+    if STOP_REQUESTED.load(Ordering::SeqCst) || FORK_HOLD.load(Ordering::SeqCst) {
         MUT_PARKED[mid].store(true, Ordering::SeqCst);
         simrt::block_until("safepoint: world resumed", || {
-            !STOP_REQUESTED.load(Ordering::SeqCst)
+            !STOP_REQUESTED.load(Ordering::SeqCst) && !FORK_HOLD.load(Ordering::SeqCst)
         });
         MUT_PARKED[mid].store(false, Ordering::SeqCst);
     }
@@ -334,14 +335,14 @@ impl Scanning<SimVM> for SimScanning {
         worker: &mut GCWorker<SimVM>,
         tracer_context: impl ObjectTracerContext<SimVM>,
     ) -> bool {
-        world::process_weak_refs(worker, tracer_context)
+        crate::oracle::process_weak_refs(worker, tracer_context)
     }
 
     fn forward_weak_refs(
         worker: &mut GCWorker<SimVM>,
         tracer_context: impl ObjectTracerContext<SimVM>,
     ) {
-        world::forward_weak_refs(worker, tracer_context)
+        crate::oracle::forward_weak_refs(worker, tracer_context)
     }
 }
 
@@ -369,7 +370,7 @@ impl Collection<SimVM> for SimCollection {
 
     fn resume_mutators(_tls: VMWorkerThread) {
         // The world is still stopped here: run the post-pause oracle first.
-        world::on_resume();
+        crate::oracle::on_resume();
         STOP_REQUESTED.store(false, Ordering::SeqCst);
         RESUME_COUNT.fetch_add(1, Ordering::SeqCst);
         simrt::yield_now(site::mk(site::CLASS_BINDING, 10));
